@@ -113,8 +113,8 @@ def build_proofs(prop, jobs=16):
     ensure_makefile()
     target = prop.props_file[:-2] + '.vo'
     (COQ / target).unlink(missing_ok=True)
-    # Tie B: regenerate Gen/Leaves.v from the current source (under the same lock as the build)
-    cmd = (f"flock .build.lock sh -c '/venv/bin/python ../tools/py2coq.py >/dev/null; "
+    # Tie B: regenerate Gen/Leaves.v and Gen/Control.v from the current source (under the same lock as the build)
+    cmd = (f"flock .build.lock sh -c '/venv/bin/python ../tools/py2coq.py >/dev/null; /venv/bin/python ../tools/py2coq_ctl.py >/dev/null; "
            f"timeout 1500 make -j{jobs} {target}'")
     t0 = time.time()
     rc, out = sh(cmd, timeout=1600, cwd=COQ)
